@@ -15,6 +15,10 @@ import (
 type ClientServerStream struct {
 	ctx context.Context
 
+	// mu guards header, trailer and closeErr: the client side may read them after it has ended the call itself
+	// (cancelled context), while the handler is still running and setting them
+	mu sync.Mutex
+
 	header  metadata.MD
 	headerM sync.Mutex    // guards closing of headerC
 	headerC chan struct{} // closed once calls to clientStream.Header should return
@@ -38,17 +42,33 @@ func NewClientServerStream(ctx context.Context) *ClientServerStream {
 }
 
 func (s *ClientServerStream) Close(err error) {
+	s.mu.Lock()
 	s.closeErr = err
+	s.mu.Unlock()
 	close(s.serverSend)
 	s.closed()
 }
 
 // safe to call if s.serverSend is closed
 func (s *ClientServerStream) closeErrLocked() error {
+	s.mu.Lock()
+	defer s.mu.Unlock()
 	if s.closeErr == nil {
 		return io.EOF
 	}
 	return s.closeErr
+}
+
+func (s *ClientServerStream) getHeader() metadata.MD {
+	s.mu.Lock()
+	defer s.mu.Unlock()
+	return s.header
+}
+
+func (s *ClientServerStream) joinHeader(md metadata.MD) {
+	s.mu.Lock()
+	defer s.mu.Unlock()
+	s.header = metadata.Join(s.header, md)
 }
 
 func (s *ClientServerStream) Client() grpc.ClientStream {
@@ -69,17 +89,19 @@ func (c *clientStream) Header() (metadata.MD, error) {
 		select {
 		case <-c.headerC:
 			// we should still return the headers if we have them, even if the context is done
-			return c.header, nil
+			return c.getHeader(), nil
 		default:
 			// when the stream is terminated without headers, ClientStream should return a nil error
 			return nil, nil
 		}
 	case <-c.headerC:
-		return c.header, nil
+		return c.getHeader(), nil
 	}
 }
 
 func (c *clientStream) Trailer() metadata.MD {
+	c.mu.Lock()
+	defer c.mu.Unlock()
 	return c.trailer
 }
 
@@ -128,7 +150,7 @@ type serverStream struct {
 }
 
 func (s *serverStream) SetHeader(md metadata.MD) error {
-	s.header = metadata.Join(s.header, md)
+	s.joinHeader(md)
 	return nil
 }
 
@@ -141,12 +163,14 @@ func (s *serverStream) SendHeader(md metadata.MD) error {
 		return errors.New("headers already sent")
 	default:
 	}
-	s.header = metadata.Join(s.header, md)
+	s.joinHeader(md)
 	close(s.headerC)
 	return nil
 }
 
 func (s *serverStream) SetTrailer(md metadata.MD) {
+	s.mu.Lock()
+	defer s.mu.Unlock()
 	s.trailer = metadata.Join(s.trailer, md)
 }
 
